@@ -28,7 +28,9 @@ type ConnScript struct {
 	Reqs     []world.Request `json:"reqs"`
 	SlowRead int             `json:"slow_read,omitempty"`
 	MaxOut   int             `json:"max_outstanding,omitempty"`
-	Early    bool            `json:"early,omitempty"` // connect immediately instead of waiting for a loaded routing table
+	// LeaveAfter > 0: the client closes its connection after this many replies, in the middle of its pipeline
+	LeaveAfter int  `json:"leave_after,omitempty"`
+	Early      bool `json:"early,omitempty"` // connect immediately instead of waiting for a loaded routing table
 }
 
 // Fault is one entry of a fault plan.  Exactly one trigger is used:
@@ -139,6 +141,7 @@ func (w *redisWorld) Setup(rt *simhook.Runtime) {
 	for _, cs := range w.sc.Conns {
 		c := w.env.AddClient(cs.Name, cs.Reqs)
 		c.SlowRead, c.MaxOutstanding = cs.SlowRead, cs.MaxOut
+		c.LeaveAfter = cs.LeaveAfter
 		if cs.Early {
 			c.Start()
 		} else {
@@ -459,6 +462,16 @@ func (w *redisWorld) inject(f *Fault) bool {
 		}
 		n.Unstall()
 		return true
+	case "clusterdown":
+		// the node loses sight of the majority for a while: it refuses keyed commands with CLUSTERDOWN
+		n.ClusterDown = true
+		return true
+	case "clusterup":
+		if !n.ClusterDown {
+			return false
+		}
+		n.ClusterDown = false
+		return true
 	case "refuse":
 		w.env.Net.SetDown(n.Addr, simnet.DialRefused)
 		return true
@@ -753,7 +766,7 @@ func (w *redisWorld) actorsPending() bool {
 		}
 	}
 	for _, c := range w.env.Clients {
-		if c.EOF || c.Reset || c.GaveUp {
+		if c.EOF || c.Reset || c.GaveUp || c.Left {
 			continue
 		}
 		if !c.Connected {
@@ -856,7 +869,7 @@ func (w *redisWorld) Final() *simrt.Violation {
 	}
 	// every request on a connection that is still open has exactly one reply
 	for _, c := range w.env.Clients {
-		if c.EOF || c.Reset || !c.Connected {
+		if c.EOF || c.Reset || !c.Connected || c.Left {
 			continue
 		}
 		for _, s := range c.Sent {
